@@ -24,6 +24,7 @@ import (
 	"strconv"
 	"strings"
 	"sync"
+	"sync/atomic"
 	"testing"
 	"time"
 
@@ -57,7 +58,7 @@ type Node struct {
 //
 //	att:    A = source epoch is duty epoch - A;  B = distance of the head slot behind the duty slot (-1: unknown to the cache)
 //	agg:    A = length of the aggregation bits;  B = bits set
-//	prop:   A = version (1 altair .. 4 deneb);   B = consensus value;  C = execution value;  D = 1: blinded
+//	prop:   A = version (1 altair .. 4 deneb);   CV/EV (or B/C) = consensus / execution value in wei;  D = 1: blinded
 //	sync:   A = bits set (of 128)
 //	root:   A = distance of the root's slot behind the duty slot (-1: unknown to the cache)
 type Value struct {
@@ -65,6 +66,42 @@ type Value struct {
 	B int64 `json:"b,omitempty"`
 	C int64 `json:"c,omitempty"`
 	D int64 `json:"d,omitempty"`
+	// prop only: consensus and execution value in wei as decimal strings (they
+	// exceed int64: 20 ETH, 1000 ETH, 2^200); when empty, B and C are used
+	CV string `json:"cv,omitempty"`
+	EV string `json:"ev,omitempty"`
+}
+
+// propValues gives the consensus and execution value of a proposal pool value.
+func propValues(v Value) (*big.Int, *big.Int) {
+	cv, ev := big.NewInt(v.B), big.NewInt(v.C)
+	if v.CV != "" {
+		if x, ok := new(big.Int).SetString(v.CV, 10); ok {
+			cv = x
+		}
+	}
+	if v.EV != "" {
+		if x, ok := new(big.Int).SetString(v.EV, 10); ok {
+			ev = x
+		}
+	}
+	return cv, ev
+}
+
+// weiValues: small values (ties, near-ties that float64 still separates),
+// ordinary block values, and values across and far above 2^64 wei (18.44 ETH).
+var weiValues = []string{
+	"0", "1", "2", "1000", "1001", "1099511627776", "1099511627777",
+	"100000000000000000",     // 0.1 ETH
+	"2000000000000000000",    // 2 ETH
+	"10000000000000000000",   // 10 ETH
+	"18446744073709551615",   // 2^64-1
+	"18446744073709551616",   // 2^64
+	"20000000000000000000",   // 20 ETH
+	"30000000000000000000",   // 30 ETH
+	"40000000000000000000",   // 40 ETH
+	"1000000000000000000000", // 1000 ETH
+	"1606938044258990275541962092341162602522202993782792835301376", // 2^200
 }
 
 // Case is one generated scenario.
@@ -147,9 +184,8 @@ func genCase(t *rapid.T) Case {
 		case "prop":
 			v.A = int64(between(t, "version", int(verAltair), int(verDeneb)))
 			v.D = int64(between(t, "blinded", int(0), int(1)))
-			vals := []int64{0, 1, 2, 1000, 1001, 1 << 40, 1<<40 + 1}
-			v.B = choose(t, "consensusValue", vals)
-			v.C = choose(t, "executionValue", vals)
+			v.CV = choose(t, "consensusValue", weiValues)
+			v.EV = choose(t, "executionValue", weiValues)
 		case "sync":
 			v.A = choose(t, "set", []int64{0, 1, 1, 64, 127, 128, 128})
 		case "root":
@@ -379,6 +415,9 @@ type observation struct {
 	CanaryMs float64
 	Stuck    bool // node doubles did not finish (harness watchdog)
 	Stalled  bool // an OS thread of this process was kept off the CPU during the case
+	// TimerLateMs: how late a reference timer fired that sits next to the
+	// strategy's own soft / hard timer
+	TimerLateMs float64
 }
 
 func run(c *Case) *observation {
@@ -406,6 +445,8 @@ func run(c *Case) *observation {
 	}
 	hard := time.Duration(c.TimeoutMs) * time.Millisecond
 	done := make(chan struct{})
+	var refTimers [2]*time.Timer
+	var refFired [2]atomic.Int64
 	begin := time.Now()
 	w.t0 = begin
 	go func() {
@@ -416,6 +457,12 @@ func run(c *Case) *observation {
 				o.RMs = w.sinceMs()
 			}
 		}()
+		// reference timers, created by the goroutine (and so on the timer heap)
+		// that creates the strategy's own soft and hard timers a moment later
+		for k, due := range []time.Duration{hard / 2, hard} {
+			k := k
+			refTimers[k] = time.AfterFunc(due, func() { refFired[k].Store(int64(time.Since(begin))) })
+		}
 		id, err := call(ctx)
 		o.RMs = w.sinceMs()
 		o.Returned = true
@@ -456,6 +503,21 @@ func run(c *Case) *observation {
 	o.Nodes = append([]nodeObs(nil), w.obs...)
 	w.mu.Unlock()
 	end := time.Now()
+	// by how much did a reference timer that was due before the return (or is
+	// overdue now) fire late?
+	for k, due := range []time.Duration{hard / 2, hard} {
+		if refTimers[k] != nil {
+			refTimers[k].Stop()
+		}
+		fired := time.Duration(refFired[k].Load())
+		dueMs := float64(due) / float64(time.Millisecond)
+		switch {
+		case fired > 0:
+			o.TimerLateMs = math.Max(o.TimerLateMs, float64(fired-due)/float64(time.Millisecond))
+		case o.RMs > dueMs:
+			o.TimerLateMs = math.Max(o.TimerLateMs, math.Min(o.RMs, float64(end.Sub(begin))/float64(time.Millisecond))-dueMs)
+		}
+	}
 	o.CanaryMs = canaryMaxMs(begin, end)
 	o.Stalled = stalledDuring(begin, end)
 	return o
@@ -501,7 +563,8 @@ func refScore(c *Case, i int) *big.Rat {
 	case "agg":
 		return big.NewRat(v.B, v.A) // fraction of aggregation bits set
 	case "prop":
-		return new(big.Rat).SetInt(new(big.Int).Add(big.NewInt(v.B), big.NewInt(v.C))) // consensus + execution value
+		cv, ev := propValues(v)
+		return new(big.Rat).SetInt(new(big.Int).Add(cv, ev)) // consensus + execution value
 	case "sync":
 		return big.NewRat(v.A, 1) // bits set
 	case "root":
@@ -557,7 +620,7 @@ func judge(c *Case, o *observation) verdict {
 	S := H / 2
 	n := len(c.Nodes)
 	rs, perturbed := responses(c, o)
-	v.Perturbed = perturbed || o.CanaryMs > perturbMs || o.Stuck || o.Stalled
+	v.Perturbed = perturbed || o.CanaryMs > perturbMs || o.Stuck || o.Stalled || o.TimerLateMs > perturbMs
 	fail := func(sig, format string, args ...any) verdict {
 		if v.Sig == "" {
 			v.Sig = c.Strategy + ":" + sig
@@ -669,7 +732,7 @@ func judge(c *Case, o *observation) verdict {
 			}
 			winners := map[int]bool{}
 			for _, i := range set {
-				if refScore(c, rs[i].val).Cmp(best) == 0 {
+				if asGood(refScore(c, rs[i].val), best) {
 					okVal[rs[i].val] = true
 					winners[rs[i].val] = true
 				}
@@ -857,6 +920,21 @@ func judge(c *Case, o *observation) verdict {
 	return v
 }
 
+// asGood reports whether score a counts as equal to the best score b (a <= b).
+// Scores are compared exactly, except above 2^53 (proposal values in wei),
+// where the statement's "highest-scoring" cannot be meant more finely than a
+// float64 resolves: there a relative gap below 1e-9 is a tie.
+func asGood(a, b *big.Rat) bool {
+	if a.Cmp(b) >= 0 {
+		return true
+	}
+	if b.Cmp(new(big.Rat).SetInt(new(big.Int).Lsh(big.NewInt(1), 53))) < 0 {
+		return false
+	}
+	gap := new(big.Rat).Sub(b, a)
+	return gap.Cmp(new(big.Rat).Mul(b, big.NewRat(1, 1000000000))) < 0
+}
+
 func sortedKeys(m map[int]bool) []int {
 	var r []int
 	for k := range m {
@@ -1022,11 +1100,11 @@ func runBatch(cs []Case) []outcome {
 }
 
 // confirmed re-executes the case: a disagreement that depends on real time is
-// believed only when it shows again, with the same signature, in each of two
-// further unperturbed executions.
+// believed only when it shows again, with the same signature, in each of
+// three further unperturbed executions.
 func confirmed(c *Case, sig string) bool {
 	okRuns := 0
-	for try := 0; try < 6 && okRuns < 2; try++ {
+	for try := 0; try < 9 && okRuns < 3; try++ {
 		r := runAndJudge(c)
 		if r.o.Harness != "" {
 			return false
@@ -1039,7 +1117,7 @@ func confirmed(c *Case, sig string) bool {
 		}
 		okRuns++
 	}
-	return okRuns == 2
+	return okRuns == 3
 }
 
 func clone(c *Case) Case {
@@ -1132,7 +1210,7 @@ func simpler(c *Case) []Case {
 
 func minimise(c *Case, sig string) Case {
 	cur := clone(c)
-	deadline := time.Now().Add(30 * time.Second)
+	deadline := time.Now().Add(20 * time.Second)
 	for round := 0; round < 25 && time.Now().Before(deadline); round++ {
 		cands := simpler(&cur)
 		if len(cands) == 0 {
@@ -1157,6 +1235,13 @@ func minimise(c *Case, sig string) Case {
 	}
 	return cur
 }
+
+type minimalCase struct {
+	c      Case
+	detail string
+}
+
+var minimal = map[string]minimalCase{} // only used on the test goroutine
 
 // report records the evidence of one executed case and raises the violation,
 // if any.  It must run on the goroutine of the test.
@@ -1195,6 +1280,12 @@ func report(t ev.TB, c *Case, r outcome) {
 		ev.Violation(t, r.v.Sig, c, "%s", r.v.Detail)
 		return
 	}
+	// minimise once per signature and process (rapid executes the property
+	// again after a failure; the minimal case found first is reported again)
+	if prev, ok := minimal[r.v.Sig]; ok {
+		ev.Violation(t, r.v.Sig, &prev.c, "%s", prev.detail)
+		return
+	}
 	m := minimise(c, r.v.Sig)
 	detail := r.v.Detail
 	if mr := runAndJudge(&m); mr.o.Harness == "" && mr.v.Sig == r.v.Sig {
@@ -1202,6 +1293,7 @@ func report(t ev.TB, c *Case, r outcome) {
 	} else {
 		m = *c
 	}
+	minimal[r.v.Sig] = minimalCase{m, detail}
 	ev.Violation(t, r.v.Sig, &m, "%s", detail)
 }
 
